@@ -17,20 +17,60 @@ type slotDecl struct {
 	initargs []string // subset of a, b, k (k is the initarg shared between s and u)
 	form     int      // 0 = no initform, 1 = value initform, 2 = initform nil
 	val      int      // value of the initform when form == 1
+	shared   bool     // :allocation :class
 }
 
 // classDef is one defclass form: ordered direct superclasses and the two slot
 // option strings. Option letters: o = bare slot, a/b/k = :initarg :a/:b/:k,
-// f = :initform <number>, n = :initform nil, "-" = slot not declared here.
+// f = :initform <number>, n = :initform nil, c = :allocation :class, "-" = slot not declared here.
+// dopt: the initargs (letters a, b, k) for which the class option :default-initargs gives a default form.
 type classDef struct {
 	supers []int
 	sopt   string
 	uopt   string
-	bump   bool // redefinition: initform values are shifted by +5
+	dopt   string
+	bump   bool // redefinition: initform and default-initarg values are shifted by +5
+}
+
+func (d classDef) slotText() string {
+	if d.dopt != "" {
+		return d.sopt + "." + d.uopt + "." + d.dopt
+	}
+	return d.sopt + "." + d.uopt
 }
 
 func (d classDef) String() string {
-	return supText(d.supers) + "=" + d.sopt + "." + d.uopt
+	return supText(d.supers) + "=" + d.slotText()
+}
+
+// defaults of class i: initarg letter -> value of its default form.
+func (d classDef) defaults(i int) map[string]int {
+	if d.dopt == "" {
+		return nil
+	}
+	off := 0
+	if d.bump {
+		off = 5
+	}
+	out := map[string]int{}
+	for k, a := range argOrder {
+		if strings.Contains(d.dopt, a) {
+			out[a] = 300 + 10*(i+1) + k + off
+		}
+	}
+	return out
+}
+
+// splitSlots parses "sopt.uopt" or "sopt.uopt.dopt".
+func splitSlots(s string) (so, uo, do string, err error) {
+	su := strings.Split(s, ".")
+	if len(su) != 2 && len(su) != 3 {
+		return "", "", "", fmt.Errorf("bad slots %q", s)
+	}
+	if len(su) == 3 {
+		do = su[2]
+	}
+	return su[0], su[1], do, nil
 }
 
 func supText(s []int) string {
@@ -69,6 +109,8 @@ func declFrom(name, opt string, base int) (slotDecl, bool) {
 			d.val = base
 		case 'n':
 			d.form = 2
+		case 'c':
+			d.shared = true
 		case 'o':
 		default:
 			panic("bad slot option " + opt)
@@ -112,6 +154,7 @@ type caseSpec struct {
 	defs  []classDef
 	redef *redefSpec
 	warm  bool
+	ext   bool // extended probes (ext.go)
 }
 
 var slotNames = []string{"s", "u"}
@@ -122,15 +165,24 @@ func (c *caseSpec) String() string {
 	var sup, sl []string
 	for _, d := range c.defs {
 		sup = append(sup, supText(d.supers))
-		sl = append(sl, d.sopt+"."+d.uopt)
+		sl = append(sl, d.slotText())
 	}
 	r := "-"
 	if c.redef != nil {
 		r = fmt.Sprintf("%d=%s", c.redef.r, c.redef.def.String())
+		if !c.redef.def.bump {
+			r += "=same"
+		}
 	}
-	w := "-"
+	w := ""
 	if c.warm {
 		w = "w"
+	}
+	if c.ext {
+		w += "x"
+	}
+	if w == "" {
+		w = "-"
 	}
 	return fmt.Sprintf("%d|%s|%s|%s|%s", c.n, strings.Join(sup, ","), strings.Join(sl, ","), r, w)
 }
@@ -149,20 +201,13 @@ func parseCase(spec string) (*caseSpec, error) {
 	if len(sup) != n || len(sl) != n {
 		return nil, fmt.Errorf("field count")
 	}
-	c := &caseSpec{n: n, warm: p[4] == "w"}
-	parseSlots := func(s string) (string, string, error) {
-		su := strings.Split(s, ".")
-		if len(su) != 2 {
-			return "", "", fmt.Errorf("bad slots %q", s)
-		}
-		return su[0], su[1], nil
-	}
+	c := &caseSpec{n: n, warm: strings.Contains(p[4], "w"), ext: strings.Contains(p[4], "x")}
 	for i := 0; i < n; i++ {
-		so, uo, err := parseSlots(sl[i])
+		so, uo, do, err := splitSlots(sl[i])
 		if err != nil {
 			return nil, err
 		}
-		d := classDef{supers: parseSup(sup[i]), sopt: so, uopt: uo}
+		d := classDef{supers: parseSup(sup[i]), sopt: so, uopt: uo, dopt: do}
 		for _, x := range d.supers {
 			if x < 0 || n <= x || x == i {
 				return nil, fmt.Errorf("bad super")
@@ -172,18 +217,18 @@ func parseCase(spec string) (*caseSpec, error) {
 	}
 	if p[3] != "-" {
 		q := strings.Split(p[3], "=")
-		if len(q) != 3 {
+		if len(q) != 3 && !(len(q) == 4 && q[3] == "same") {
 			return nil, fmt.Errorf("bad redef")
 		}
 		r, err := strconv.Atoi(q[0])
 		if err != nil || r < 0 || n <= r {
 			return nil, fmt.Errorf("bad redef class")
 		}
-		so, uo, err := parseSlots(q[2])
+		so, uo, do, err := splitSlots(q[2])
 		if err != nil {
 			return nil, err
 		}
-		c.redef = &redefSpec{r: r, def: classDef{supers: parseSup(q[1]), sopt: so, uopt: uo, bump: true}}
+		c.redef = &redefSpec{r: r, def: classDef{supers: parseSup(q[1]), sopt: so, uopt: uo, dopt: do, bump: len(q) == 3}}
 	}
 	return c, nil
 }
@@ -552,10 +597,39 @@ var (
 func mkCase(sup [][]int, sl []string) *caseSpec {
 	c := &caseSpec{n: len(sup)}
 	for i := range sup {
-		su := strings.Split(sl[i], ".")
-		c.defs = append(c.defs, classDef{supers: sup[i], sopt: su[0], uopt: su[1]})
+		so, uo, do, err := splitSlots(sl[i])
+		if err != nil {
+			panic(err)
+		}
+		c.defs = append(c.defs, classDef{supers: sup[i], sopt: so, uopt: uo, dopt: do})
 	}
 	return c
+}
+
+// defaultsValid: every initarg a class gives a default for is declared for some slot of the class or of an ancestor
+// (otherwise make-instance is an error in Common Lisp; the statement says nothing about it).
+func defaultsValid(defs []classDef) bool {
+	for i, d := range defs {
+		if d.dopt == "" {
+			continue
+		}
+		va := validArgs(defs, i)
+		for _, ch := range d.dopt {
+			if !inList(string(ch), va) {
+				return false
+			}
+		}
+	}
+	return true
+}
+
+func usesDefaults(defs []classDef) bool {
+	for _, d := range defs {
+		if d.dopt != "" {
+			return true
+		}
+	}
+	return false
 }
 
 // redefinitions of class r of case c: one change each.
@@ -569,19 +643,30 @@ func redefsOf(c *caseSpec, r int) []classDef {
 				return
 			}
 		}
+		if !defaultsValid(c.finalDefsWith(r, d)) {
+			return
+		}
 		out = append(out, d)
 	}
 	// identical text but for the initform value / added slot s with an initform
-	add(classDef{supers: old.supers, sopt: "f", uopt: old.uopt})
+	add(classDef{supers: old.supers, sopt: "f", uopt: old.uopt, dopt: old.dopt})
 	// slot removed
 	if old.sopt != "-" || old.uopt != "-" {
 		add(classDef{supers: old.supers, sopt: "-", uopt: "-"})
 	}
 	// initform dropped, initarg only
-	add(classDef{supers: old.supers, sopt: "a", uopt: old.uopt})
+	add(classDef{supers: old.supers, sopt: "a", uopt: old.uopt, dopt: old.dopt})
 	// slot u added with the shared initarg
 	if old.uopt == "-" {
-		add(classDef{supers: old.supers, sopt: old.sopt, uopt: "kf"})
+		add(classDef{supers: old.supers, sopt: old.sopt, uopt: "kf", dopt: old.dopt})
+	}
+	// :default-initargs dropped / added (only in the families whose alphabet has the class option)
+	if old.dopt != "" {
+		add(classDef{supers: old.supers, sopt: old.sopt, uopt: old.uopt})
+	} else if usesDefaults(c.defs) {
+		if va := validArgs(c.defs, r); 0 < len(va) {
+			add(classDef{supers: old.supers, sopt: old.sopt, uopt: old.uopt, dopt: va[0]})
+		}
 	}
 	// superclass list reversed / first dropped / one added at the end or the front
 	if 1 < len(old.supers) {
@@ -589,10 +674,10 @@ func redefsOf(c *caseSpec, r int) []classDef {
 		for i, s := range old.supers {
 			rev[len(rev)-1-i] = s
 		}
-		add(classDef{supers: rev, sopt: old.sopt, uopt: old.uopt})
+		add(classDef{supers: rev, sopt: old.sopt, uopt: old.uopt, dopt: old.dopt})
 	}
 	if 0 < len(old.supers) {
-		add(classDef{supers: append([]int(nil), old.supers[1:]...), sopt: old.sopt, uopt: old.uopt})
+		add(classDef{supers: append([]int(nil), old.supers[1:]...), sopt: old.sopt, uopt: old.uopt, dopt: old.dopt})
 	}
 	for j := 0; j < c.n; j++ {
 		if j == r {
@@ -607,7 +692,7 @@ func redefsOf(c *caseSpec, r int) []classDef {
 		if dup {
 			continue
 		}
-		nd := classDef{supers: append(append([]int(nil), old.supers...), j), sopt: old.sopt, uopt: old.uopt}
+		nd := classDef{supers: append(append([]int(nil), old.supers...), j), sopt: old.sopt, uopt: old.uopt, dopt: old.dopt}
 		fin := c.finalDefsWith(r, nd)
 		if acyclic(fin) {
 			add(nd)
@@ -631,20 +716,71 @@ func emitP(emit func(string), n, maxSup int, alpha []string) {
 }
 
 func emitR(emit func(string), n, maxSup int, alpha []string, warmToo bool) {
-	for _, g := range dags(n, maxSup) {
+	emitRShapes(emit, dags(n, maxSup), nil, alpha, rOpts{cold: true, warm: warmToo})
+}
+
+type rOpts struct {
+	cold, warm bool // emit the case with a cold / a warm dispatch cache
+	ext        bool // the warm variant also carries the extended probes (instances made before the redefinition are kept and probed)
+	coldExt    bool // the cold variant carries the extended probes
+	same       bool // also the redefinition that repeats the definition unchanged
+}
+
+// emitRShapes: every redefinition of every class in `which` (nil = all) of every slot assignment over the shapes.
+func emitRShapes(emit func(string), shapes [][][]int, which []int, alpha []string, o rOpts) {
+	for _, g := range shapes {
+		n := len(g)
 		product(alpha, n, func(sl []string) {
 			c := mkCase(g, sl)
+			if !defaultsValid(c.defs) {
+				return
+			}
 			for r := 0; r < n; r++ {
-				for _, nd := range redefsOf(c, r) {
+				if which != nil && !inInts(r, which) {
+					continue
+				}
+				rds := redefsOf(c, r)
+				if o.same {
+					same := c.defs[r]
+					same.bump = false
+					rds = append(rds, same)
+				}
+				for _, nd := range rds {
 					c2 := *c
 					c2.redef = &redefSpec{r: r, def: nd}
-					emit(c2.String())
-					if warmToo {
-						c2.warm = true
+					if o.cold {
+						c2.warm, c2.ext = false, o.coldExt
+						emit(c2.String())
+					}
+					if o.warm {
+						c2.warm, c2.ext = true, o.ext
 						emit(c2.String())
 					}
 				}
 			}
+		})
+	}
+}
+
+func inInts(x int, l []int) bool {
+	for _, y := range l {
+		if x == y {
+			return true
+		}
+	}
+	return false
+}
+
+// emitShapes: no redefinition; every slot assignment over the shapes whose default initargs are all valid.
+func emitShapes(emit func(string), shapes [][][]int, alpha []string, ext bool) {
+	for _, g := range shapes {
+		product(alpha, len(g), func(sl []string) {
+			c := mkCase(g, sl)
+			if !defaultsValid(c.defs) {
+				return
+			}
+			c.ext = ext
+			emit(c.String())
 		})
 	}
 }
@@ -673,6 +809,7 @@ var shapesDiamond4 = [][][]int{
 
 func enumerate(tier string, emit func(string)) {
 	enumNilarg(emit)
+	enumMisc(emit)
 	thorough := tier == engine.Thorough
 	// family P: no redefinition, every permutation of the defclass forms
 	emitP(emit, 1, 0, alphaFull)
@@ -693,12 +830,13 @@ func enumerate(tier string, emit func(string)) {
 	}
 	// family R: one class redefined at any later point of the history
 	if thorough {
-		emitR(emit, 2, 1, alphaSmall, true)
-		emitR(emit, 3, 2, alphaTiny, true)
+		emitRShapes(emit, dags(2, 1), nil, alphaSmall, rOpts{cold: true, warm: true, same: true})
+		emitRShapes(emit, dags(3, 2), nil, alphaTiny, rOpts{cold: true, warm: true, same: true})
 		emitR(emit, 3, 2, []string{"-.-", "f.-", "k.k"}, false)
 	} else {
-		emitR(emit, 2, 1, alphaTiny, true)
-		emitR(emit, 3, 2, alphaTwo, true)
+		// sixth round: the redefinition that repeats the definition unchanged is one more kind
+		emitRShapes(emit, dags(2, 1), nil, alphaTiny, rOpts{cold: true, warm: true, same: true})
+		emitRShapes(emit, dags(3, 2), nil, alphaTwo, rOpts{cold: true, warm: true, same: true})
 	}
 	// 4 classes: every DAG, every permutation
 	emitP(emit, 4, 3, []string{"f.-"})
@@ -728,6 +866,7 @@ func enumerate(tier string, emit func(string)) {
 			})
 		}
 	}
+	enumerateSixth(thorough, emit)
 }
 
 var alphaQuick3 = []string{"-.-", "o.-", "f.-", "a.-", "af.-", "k.-", "-.kf", "k.k"}
